@@ -43,14 +43,14 @@ def validate(ctx, items):
         o = r["obs"]
         if o["snerr"] > 0:
             continue
-        st = [dict(ty=k["ty"], lit=k["lit"], sl=k["sl"], sc=k["sc"]) for k in o["stoks"]]
         for x in o["outs"]:
             if x.get("panic") or not x.get("map"):
                 fails.append((it, "total", dict(cfg=x["cfg"], panic=x.get("panic"), map=x.get("map"))))
                 continue
             rid = it["id"] + "|" + x["cfg"]
             byid[rid] = (it, x)
-            recs.append(dict(id=rid, stoks=st, otoks=[dict(ty=k["ty"], lit=k["lit"], sl=k["sl"], sc=k["sc"]) for k in x["otoks"]],
+            recs.append(dict(id=rid, src=list(it["text"].encode("latin-1")),
+                             otoks=[dict(ty=k["ty"], lit=list(c06.unsafe(k["lit"])), name=k["lit"], sl=k["sl"], sc=k["sc"]) for k in x["otoks"]],
                              map=x["map"], wcfg=c06.wcfg(x["cfg"]), ops=c06.model_ops(x["ops"]) if x.get("ops") else []))
     if recs:
         t = ctx.tlc_trace("Trace_C08", "Trace_C08.cfg", recs, xss="128m", heap="4g")
